@@ -522,7 +522,7 @@ impl Check for C12Preset {
     fn strategy(&self, _t: Tier) -> BoxedStrategy<CasePreset> {
         (vec(any::<u32>(), 0..300), 0u8..5)
             .prop_map(|(tape, position)| {
-                let mut g = Gen::new(&tape, GenCfg { ill: 1, bind_bias: true, exclude: vec!["exec", "trigger", "now", "env", "parse_selection"], ..GenCfg::default() });
+                let mut g = Gen::new(&tape, GenCfg { ill: 1, bind_bias: true, ctx: true, exclude: vec!["exec", "trigger", "now", "env", "parse_selection"], ..GenCfg::default() });
                 let mut env = Env::top();
                 // the kind the position wants, so that the option does something
                 let want = [ArrNum, Bool, Num, Str, Any][position as usize];
@@ -590,6 +590,7 @@ impl Check for C12Preset {
             Info::new(uses && effect)
                 .class(["in_split_by", "in_filter", "in_sort_by", "in_group_by", "in_select"][c.position as usize])
                 .class_if(uses, "uses_binding")
+                .class_if(c.mac.1.any(&|x| matches!(x, Expr::Ctx(_))), "macro_reads_the_input_context")
                 .class_if(effect, "option_has_an_effect")
                 .obs(json!({"args": a1, "substituted": canon(&s)})),
         )
